@@ -574,7 +574,7 @@ class ADEV(Pytree):
                     elif eqn.primitive is jax.lax.cond_p:
                         # Create dual continuation for the computation after the cond_p.
                         def _cond_dual_kont(dual_tree: list[Any]):
-                            dual_leaves = Dual.tree_pure(dual_tree)
+                            dual_leaves = Dual.tree_leaves(dual_tree)
                             return eval_jaxpr_iterate_dual(
                                 eqns[eqn_idx + 1 :],
                                 dual_env,
@@ -656,10 +656,12 @@ class ADEV(Pytree):
                     eqn.outvars,
                     Dual.dual_tree(primal_outs, tangent_outs),
                 )
-            (out_dual,) = jax_util.safe_map(dual_env.read, jaxpr.outvars)
-            if not isinstance(out_dual, Dual):
-                out_dual = Dual(out_dual, _zero_tangent_like(out_dual))
-            return out_dual
+            # A branch of a cond may have several outputs, or forward an operand.
+            out_duals = [
+                d if isinstance(d, Dual) else Dual(d, _zero_tangent_like(d))
+                for d in jax_util.safe_map(dual_env.read, jaxpr.outvars)
+            ]
+            return out_duals[0] if len(out_duals) == 1 else out_duals
 
         return eval_jaxpr_iterate_dual(jaxpr.eqns, dual_env, jaxpr.invars, flat_duals)
 
